@@ -298,6 +298,61 @@ func runC05(c *Ctx) {
 		c.Extra["mutating_bigint_calls_examined"] = n
 		_ = bad
 		c.Extra["mutating_bigint_receivers_classified"] = bigOwnershipRule(c, "C05-R4")
+		// copies handed out by accessors are deep: CopyHeader re-allocates every reference-typed field of the header
+		// (big integers and the extra bytes), so a caller mutating its copy cannot reach the original
+		ch := c.Fn("core/types:CopyHeader")
+		hdr := c.Type("core/types:Header").Underlying().(*types.Struct)
+		fresh := map[string]bool{}
+		for _, b := range ch.Blocks {
+			for _, ins := range b.Instrs {
+				if stI, ok := ins.(*ssa.Store); ok {
+					if fa, ok := stI.Addr.(*ssa.FieldAddr); ok {
+						if _, isAl := fa.X.(*ssa.Alloc); isAl {
+							switch stI.Val.(type) {
+							case *ssa.Alloc, *ssa.MakeSlice:
+								fresh[fieldName(fa)] = true
+							}
+						}
+					}
+				}
+			}
+		}
+		var missing []string
+		for i := 0; i < hdr.NumFields(); i++ {
+			f := hdr.Field(i)
+			switch t := f.Type().(type) {
+			case *types.Pointer:
+				if strings.HasSuffix(t.Elem().String(), "big.Int") && !fresh[f.Name()] {
+					missing = append(missing, f.Name())
+				}
+			case *types.Slice:
+				if !fresh[f.Name()] {
+					missing = append(missing, f.Name())
+				}
+			}
+		}
+		// block accessors hand out copies, never the block's own integers or header
+		for _, m := range []string{"Number", "Difficulty", "Time", "Header"} {
+			fn := c.Fn("core/types:(*Block)." + m)
+			okAcc, d := true, ""
+			for _, b := range fn.Blocks {
+				if ret, isRet := b.Instrs[len(b.Instrs)-1].(*ssa.Return); isRet {
+					for _, r := range bigRoots(ret.Results[0]) {
+						switch x := r.(type) {
+						case *ssa.Alloc:
+						case *ssa.Call:
+							if calleeName(&x.Call) != "types.CopyHeader" && calleeName(&x.Call) != "big.NewInt" {
+								okAcc, d = false, "returns "+c.termOf(fn, r)
+							}
+						default:
+							okAcc, d = false, "returns "+c.termOf(fn, r)
+						}
+					}
+				}
+			}
+			c.Ob("C05-R4", "Block."+m+" returns a copy", c.FnPos(fn), okAcc, d)
+		}
+		c.Ob("C05-R4", "CopyHeader re-allocates every big-integer and byte-slice field of the header", c.FnPos(ch), len(missing) == 0, "shared with the original: "+strings.Join(missing, ", "))
 	})
 	c.Min("C05-R4", 1)
 }
